@@ -274,14 +274,10 @@ Definition lane_of (d : vdesc) (st0 : state) (i : inst) : lane_fn := fun l s =>
 Definition first_lane (e : Z) : Z :=
   match find (fun l => bit e l) lanes with Some l => l | None => 0 end.
 
-Definition exec_vector (a : arch) (st : state) (i : inst) : option state :=
-  match i_fmt i, i_op i with
-  | F_VOP1, 2 =>   (* v_readfirstlane_b32: scalar destination, written once per lane with the same value *)
-      bind (rdv st (i_src0 i) 0 (i_lit i) (first_lane (exec st))) (fun v => wr st (i_dst i) 0 v)
-  | _, _ =>
-    match vdesc_of a (i_fmt i) (i_op i) with
-    | None => None
-    | Some d =>
+Definition exec_vector_gen (a : arch) (st : state) (i : inst) : option state :=
+  match vdesc_of a (i_fmt i) (i_op i) with
+  | None => None
+  | Some d =>
       match vloop (exec st) (i_dst i) (vd_dc d) (lane_of d st i) st with
       | None => None
       | Some (s, m) =>
@@ -292,5 +288,11 @@ Definition exec_vector (a : arch) (st : state) (i : inst) : option state :=
           | MSdst => wr s (i_simm i) 2 m
           end
       end
-    end
+  end.
+
+Definition exec_vector (a : arch) (st : state) (i : inst) : option state :=
+  match i_fmt i, i_op i with
+  | F_VOP1, 2 =>   (* v_readfirstlane_b32: scalar destination, written once per lane with the same value *)
+      bind (rdv st (i_src0 i) 0 (i_lit i) (first_lane (exec st))) (fun v => wr st (i_dst i) 0 v)
+  | _, _ => exec_vector_gen a st i
   end.
